@@ -43,7 +43,9 @@ def generate(ctx):
         yield {"conn": conn, "syn": syn, "dt": dt, "K": K, "tol": rng.choice([0.0, 1e-3]), "mode": mode,
                "interp": rng.choice(["previous", "nearest"]), "B": rng.randint(1, 3), "bias": rng.random() < 0.4,
                "dtype": rng.choice(["float64", "float64", "float32"]), "p": rng.choice([0.2, 0.5, 0.8]),
-               "seed": rng.randrange(1 << 30), "events": events}
+               "seed": rng.randrange(1 << 30), "events": events,
+               # reach the step time through the dt setter after construction (retimed connection) instead of the constructor
+               "retimed_from": rng.choice([None, None, 1.0, 0.5, 2.0])}
 
 
 def _synctor(desc):
@@ -72,6 +74,16 @@ def _build(desc, delayed):
         m = Conv2D(4, 4, 1, 2, dt, (2, 2), **kw)
     if desc["dtype"] == "float64":
         m.to(torch.float64)
+    return m
+
+
+def _build_retimed(desc, delayed):
+    """same configuration reached by assigning dt after construction"""
+    dt0 = desc.get("retimed_from")
+    if not dt0 or dt0 == desc["dt"]:
+        return _build(desc, delayed)
+    m = _build({**desc, "dt": dt0, "K": desc["K"] * desc["dt"] / dt0}, delayed)
+    m.dt = desc["dt"]
     return m
 
 
@@ -155,7 +167,9 @@ def run_case(ctx, desc):
     f64 = desc["dtype"] == "float64"
     tdt = torch.float64 if f64 else torch.float32
     try:
-        D, U = _build(desc, True), _build(desc, False)
+        D, U = _build_retimed(desc, True), _build_retimed(desc, False)
+        if desc.get("retimed_from") and desc["retimed_from"] != desc["dt"]:
+            ctx.count("retimed_connections")
     except Exception as e:  # noqa: BLE001
         return ctx.violation(ctx.exc_signature(e, f"construct.{conn}.{syn}"), f"{type(e).__name__}: {str(e)[:140]}", desc)
     W = torch.randn(D.weight.shape, generator=tg, dtype=torch.float64).to(tdt)
